@@ -49,6 +49,10 @@ def shaped(g):
         if sp.get("companion"):
             sp["companion"].update(name="Zcomp", to=True, mode="list")
         out.append(("multi-type-unsorted-with-to", sp))
+    # decoy methods in the mapper's file (seeded change C05-13): methods with exactly the signature of a name-matched pair on the
+    # source type itself (value / pointer receiver) and on a second struct - never mapper methods
+    for kinds in (["same", "conv"], ["same", "none", "misconv"], ["conv", "func", "same"], ["same", "conv", "oneway"]):
+        out.append(("decoy-methods", g.pair(kinds=kinds, names=["ident"], n=(4, 6), decoys=1.0, mapper_idle=1.0, func_over=0.0, multi=0, shadow=0)))
     out.append(("universe-types", g.pair(kinds=["same", "oneway", "none"], names=["ident"], n=(5, 6))))
     # the four slice-of-struct shapes ([]T / []*T on either side), both helper types; observed with a nil element at the first,
     # middle and last position (seeded change C05-6): the result keeps its length, the other elements their index
